@@ -389,12 +389,54 @@ class ClassObject(Object, Callable):
         return [b for b in (self.ctx.evaluate(r) for r in self.scope._bases)  # type: ignore[misc]
                 if isinstance(b, Callable) and hasattr(b, '_attrs')]
 
+    def _linearise(self, path):
+        # type: (list[object]) -> list[tuple[object, Attributes]]
+        # the classes below this one in the order of Python's MRO (C3: a class
+        # comes before its bases, bases keep their order), each with its own table
+        def entry(b):
+            # type: (t.Any) -> tuple[object, Attributes]
+            if isinstance(b, ClassObject):
+                return b.scope, b._cls_attrs
+            return getattr(b, 'value', b), b._attrs
+
+        bases = [b for b in self.bases if not any(entry(b)[0] is k for k in path)]  # no inheritance cycles
+        seqs = []
+        for b in bases:
+            seq = [entry(b)]
+            if isinstance(b, ClassObject):
+                seq += b._linearise(path + [entry(b)[0]])
+            seqs.append(seq)
+        seqs.append([entry(b) for b in bases])
+
+        result = []  # type: list[tuple[object, Attributes]]
+        while True:
+            seqs = [seq for seq in seqs if seq]
+            if not seqs:
+                return result
+            for seq in seqs:
+                head = seq[0]
+                if not any(head[0] is it[0] for other in seqs for it in other[1:]):
+                    break
+            else:
+                head = seqs[0][0]  # no consistent order: Python would refuse this class
+            result.append(head)
+            seqs = [[it for it in seq if it[0] is not head[0]] for seq in seqs]
+
+    @cached_property
+    def _ancestor_tables(self):
+        # type: () -> list[Attributes]
+        # own tables of the classes attributes are inherited from, in lookup order
+        order = self._linearise([self.scope])
+        # every class derives from object, written or not: it comes last
+        order = [it for it in order if it[0] is not object] + [it for it in order if it[0] is object][:1]
+        return [table for _key, table in order]
+
     @cached_property
     def _attrs(self):
         # type: () -> Attributes
         attrs = {}
-        for b in reversed(self.bases):
-            attrs.update(b._attrs)
+        for table in reversed(self._ancestor_tables):
+            attrs.update(table)
         attrs.update(self._cls_attrs)
         return attrs
 
